@@ -52,15 +52,18 @@ Types(k) == CASE k \in {"read", "readdesc"} -> {"read", "gatterr", "conn"}
               [] k = "pair" -> {"conn", "pair"}
               [] k = "unpair" -> {"conn", "unpair"}
               [] k = "clear" -> {"conn", "clear"}
+              [] k = "announce" -> {"vafin"}         \* voice-assistant announcement: answered by "announce finished"
               [] OTHER -> {}
 Request(k) == CASE k = "read" -> "BluetoothGATTReadRequest" [] k = "readdesc" -> "BluetoothGATTReadDescriptorRequest"
                 [] k = "write" -> "BluetoothGATTWriteRequest" [] k = "writedesc" -> "BluetoothGATTWriteDescriptorRequest"
                 [] k = "notify" -> "BluetoothGATTNotifyRequest" [] k = "services" -> "BluetoothGATTGetServicesRequest"
+                [] k = "announce" -> "VoiceAssistantAnnounceRequest"
                 [] OTHER -> "BluetoothDeviceRequest"
 \* the response belongs to the operation: same address, and same handle where the message has one
 Mine(op, m) ==
   CASE op.k \in GattKinds -> m.a = op.a /\ (m.k = "conn" \/ m.h = op.h)
     [] op.k \in {"disconnect", "connect"} -> m.a = op.a /\ ~m.f          \* a "disconnected" report for the address
+    [] op.k = "announce" -> TRUE                                          \* the next "announce finished", whoever else listens
     [] OTHER -> m.a = op.a
 Stops(op, m) == IF op.k = "services" THEN m.k \in {"svcdone", "gatterr", "conn"} /\ m.a = op.a ELSE Mine(op, m)
 Keeps(op, m) == IF op.k = "services" THEN m.k \in {"svc", "gatterr", "conn"} /\ m.a = op.a ELSE Mine(op, m)
@@ -78,7 +81,7 @@ Verdict(op) ==
   IF op.k = "disconnect" THEN [out |-> "ok", res |-> <<>>]
   ELSE IF \E i \in 1..Len(op.acc) : Bad(op.acc[i]) THEN [out |-> ErrOf(op.acc[FirstBad(op.acc)]), res |-> <<>>]
   ELSE IF op.k = "services" THEN [out |-> "ok", res |-> [i \in 1..Len(op.acc) |-> op.acc[i].d]]     \* the "done" marker is not kept
-  ELSE IF op.k \in {"read", "readdesc"} THEN [out |-> "ok", res |-> <<op.acc[1].d>>]
+  ELSE IF op.k \in {"read", "readdesc", "announce"} THEN [out |-> "ok", res |-> <<op.acc[1].d>>]
   ELSE [out |-> "ok", res |-> <<>>]
 
 \* ---------------------------------------------------------- subscriptions
